@@ -279,6 +279,8 @@ impl Buffer {
 
         if aligned > self.max_entry_size || aligned > buf.len() {
             #[cfg(foyer_verif)]
+            foyer_common::verif::event("shed_reinsertion_space", hash, buf.len() as u64);
+            #[cfg(foyer_verif)]
             foyer_common::verif::event("shed_reinsertion", hash, sequence);
             return false;
         }
